@@ -188,6 +188,12 @@ def one_multiset(ctx, shard, k, rng):
             if float_counts:
                 kw["dtypes"] = {"count": np.float64}
                 c.feature("counts:float-fractional")
+            meta = None
+            if x % 3 == 1:
+                meta = {"sample": f"s{k}", "nested": {"passes": [1, 2, 3]}, "note": "caf\u00e9"}
+                kw["metadata"] = meta
+                kw["assembly"] = "asm" + str(k)
+                c.feature("option:metadata+assembly")
             if dup_in_chunk:
                 kw["dupcheck"] = False
                 c.feature("chunks:repeat-pixel-within-chunk(dupcheck=False)")
@@ -210,6 +216,12 @@ def one_multiset(ctx, shard, k, rng):
                 if two_cols:
                     c.check(cols["score"].tolist() == [total_sc[kk] for kk in want_keys], "unordered-extra-column-differs",
                             "aggregated extra column differs from the in-memory fold")
+            if meta is not None:
+                inf = cooler.Cooler(out).info
+                c.check(inf.get("metadata") == meta and inf.get("genome-assembly") == "asm" + str(k),
+                        "metadata-or-assembly-lost:" + ("two-pass" if nck > max_merge > 0 else "single-pass"),
+                        f"info of the result: metadata={inf.get('metadata')!r}, genome-assembly={inf.get('genome-assembly')!r}; "
+                        f"given {meta!r} / asm{k}")
             # temp files: none created by this execution may survive; directory holds only the output
             import gc
             gc.collect()
